@@ -201,7 +201,18 @@ def run_session(mods, cycle_members, steps, use_path):
             before_names = set(before[1])
             expect_new = set()
             if form == "plain":
-                src = f"require {mname}"
+                style = step[2] if len(step) > 2 else "ident"
+                if style == "str":
+                    src = f"require '{mname}'"
+                elif style == "strext":
+                    src = f"require '{mname}.ckl'"
+                elif style == "var":
+                    run(f"def spec_{mname} = '{mname}'")
+                    before = run("ls()")
+                    before_names = set(before[1])
+                    src = f"require spec_{mname}"
+                else:
+                    src = f"require {mname}"
                 expect_new = {mname}
             elif form == "as":
                 alias = step[2]
@@ -384,6 +395,9 @@ def gen_steps(ch, mods):
             if ch.bool(0.3):
                 items.append((ch.choice(PRIVATE), None))
             steps.append(("import", m, items))
+        elif form == "plain":
+            steps.append(("plain", m, ch.choice(["ident", "ident", "str",
+                                                 "strext", "var"])))
         else:
             steps.append((form, m))
     return steps
